@@ -163,7 +163,7 @@ impl Check for C06 {
 
     fn runs(&self, tier: Tier) -> u64 {
         match tier {
-            Tier::Quick => 1_600,
+            Tier::Quick => 3_200,
             Tier::Thorough => 40_000,
         }
     }
@@ -443,7 +443,10 @@ impl Check for C06 {
                 let name = if cmd[0] == "primitive" { cmd[1].clone() } else { cmd[0].clone() };
                 if let Some(p) = &obs.panic {
                     let arithmetic = p.message.contains("overflow") || p.message.contains("exceeds");
-                    let rule = if big && arithmetic {
+                    // rust_decimal's own overflow of a 28-29 digit result is outside the range the
+                    // statement speaks about whatever the literals look like
+                    let decimal_range = p.location.contains("rust_decimal") && p.message.contains("overflowed");
+                    let rule = if (big && arithmetic) || decimal_range {
                         "C06/out-of-range"
                     } else {
                         "C06/panic"
